@@ -503,6 +503,64 @@ func c17(run *ev.Run) int {
 				}
 			}
 		}
+		// siblings: a second file in the same proto package (and Go package) as a
+		// file generated before it in the same invocation - how real packages
+		// look (a.proto and b.proto of one package). It declares its own services
+		// and uses the first file's messages; what is generated for it, and for
+		// the first file, must be what single invocations produce.
+		nsib := 0
+		for i, f := range files {
+			if len(f.Services) == 0 || len(f.Services[0].Methods) == 0 || f.TypesIn >= 0 || nsib >= run.Pick(12, 60) || single == nil {
+				continue
+			}
+			wantA, okA := "", false
+			for name, c := range single {
+				if strings.HasPrefix(name, strings.TrimSuffix(f.ProtoName, "svc.proto")) || strings.Contains(name, fmt.Sprintf("/f%d/", i)) {
+					wantA, okA = c, true
+					_ = name
+				}
+			}
+			sib := proto.Clone(descs[i]).(*descriptorpb.FileDescriptorProto)
+			sib.Name = proto.String(fmt.Sprintf("f%d/sibling.proto", i))
+			sib.MessageType = nil
+			sib.Dependency = []string{f.ProtoName}
+			sib.SourceCodeInfo = nil
+			for _, sd := range sib.Service {
+				sd.Name = proto.String(sd.GetName() + "Sibling")
+			}
+			var params *string
+			if f.GoPkgForm == "M-parameter" {
+				params = proto.String(fmt.Sprintf("M%s=%s,M%s=%s", f.ProtoName, f.GoPath, sib.GetName(), f.GoPath))
+			}
+			alone, err1 := t.run(t.plugin, &pluginpb.CodeGeneratorRequest{FileToGenerate: []string{sib.GetName()}, ProtoFile: []*descriptorpb.FileDescriptorProto{descs[i], sib}, Parameter: params})
+			both, err2 := t.run(t.plugin, &pluginpb.CodeGeneratorRequest{FileToGenerate: []string{f.ProtoName, sib.GetName()}, ProtoFile: []*descriptorpb.FileDescriptorProto{descs[i], sib}, Parameter: params})
+			run.Count("plugin.runs", 2)
+			run.Count("sibling.invocations", 1)
+			nsib++
+			skey := fmt.Sprintf("c17/sibling/file=%d", i)
+			run.Eval("sibling|" + f.shape)
+			if err1 != nil || err2 != nil || alone.Error != nil || both.Error != nil {
+				run.Violation(skey+"/plugin-failed", fmt.Sprintf("the generator failed on a second file of the same package: %v %v %q %q", err1, err2, alone.GetError(), both.GetError()), nil)
+				continue
+			}
+			if len(alone.File) != 1 || len(both.File) != 2 {
+				run.Violation(skey+"/files", fmt.Sprintf("generated %d file(s) for the sibling alone and %d for the pair (want 1 and 2)", len(alone.File), len(both.File)), nil)
+				continue
+			}
+			for _, gf := range both.File {
+				switch {
+				case gf.GetName() == alone.File[0].GetName():
+					if gf.GetContent() != alone.File[0].GetContent() {
+						run.Violation(skey+"/differs", "the code generated for the second file of a package differs when the first file is generated before it in the same invocation: "+firstDiff(alone.File[0].GetContent(), gf.GetContent()), nil)
+					}
+				case okA && single[gf.GetName()] != "":
+					if gf.GetContent() != single[gf.GetName()] {
+						run.Violation(skey+"/first-differs", "the code generated for a file differs when a second file of its package follows in the same invocation: "+firstDiff(single[gf.GetName()], gf.GetContent()), nil)
+					}
+				}
+			}
+			_ = wantA
+		}
 		c17BuildAndRun(run, t, gen, svcs)
 		c17CheckedIn(run, t)
 	}
